@@ -114,6 +114,11 @@ theorem step_acc (s : State) (op : Op) (i : Inv s) (h : (step .current s op).2.i
     by_cases hl : (!s.isLayer x) = true
     · rw [if_pos hl] at h; cases h
     · rw [if_neg hl]; exact ⟨none, rfl, trivial⟩
+  | setBlocks x ks =>
+    simp only [step, Op.target] at h ⊢
+    by_cases hl : (!s.isLayer x) = true
+    · rw [if_pos hl] at h; cases h
+    · rw [if_neg hl]; exact ⟨none, rfl, trivial⟩
   | observe o => exact observe_acc o h
 
 /-- the operations of a history that the code accepted (refused ones are no-ops) -/
